@@ -294,6 +294,47 @@ class Report:
     def count(self, key, n=1):
         self.extra[key] = self.extra.get(key, 0) + n
 
+    def sub(self):
+        """A fresh report for a worker; merge() it back."""
+        r = Report(self.ctx, self.level, self.rule)
+        r.max_samples = self.max_samples
+        return r
+
+    def merge(self, sr):
+        self.evaluations += sr.evaluations - len(sr.violations)
+        self.distinct |= sr.distinct
+        for s in sr.samples:
+            self.sample(s)
+        for v in sr.violations:
+            self.violation(*v)
+        self.inconclusive += sr.inconclusive
+        for n in sr.inconclusive_notes:
+            if len(self.inconclusive_notes) < 10:
+                self.inconclusive_notes.append(n)
+        self.declined += sr.declined
+        for k, v in sr.extra.items():
+            if isinstance(v, (int, float)) and not isinstance(v, bool):
+                self.extra[k] = self.extra.get(k, 0) + v
+            else:
+                self.extra.setdefault(k, v)
+
+
+def run_parallel(rep, cases, batch_fn, nparts=None):
+    """Split cases into parts, run batch_fn(sub_report, part) on threads, merge."""
+    cases = list(cases)
+    if not cases:
+        return
+    nparts = nparts or NCPU * 2
+    size = max(1, (len(cases) + nparts - 1) // nparts)
+    parts = list(chunks(cases, size))
+
+    def work(part):
+        sr = rep.sub()
+        batch_fn(sr, part)
+        return sr
+    for sr in pmap(work, parts):
+        rep.merge(sr)
+
 
 def load_known(pid):
     path = os.path.join(VERIF, "known_findings.json")
